@@ -120,7 +120,9 @@ async def _async_resolve_host_getaddrinfo(host: str, port: int) -> list[AddrInfo
         res = await asyncio.get_event_loop().getaddrinfo(
             host, port, type=socket.SOCK_STREAM, proto=socket.IPPROTO_TCP
         )
-    except OSError as err:
+    except (OSError, UnicodeError) as err:
+        # UnicodeError: the host name cannot be encoded for the
+        # resolver (ie. an empty label or one longer than 63 bytes)
         raise APIConnectionError(f"Error resolving IP address: {err}")
 
     addrs: list[AddrInfo] = []
